@@ -69,3 +69,52 @@ theorem ccittBranch_k (d : Dict) (k : Option Int) (hk : kOf d = .ok k) (hne : k 
   simp only [ccittBranch, hk, this, ne_eq, not_false_eq_true, if_true]
 
 end PdfVerif.Ccitt
+
+namespace PdfVerif.Ccitt
+open PdfVerif.Gen PdfVerif.Spec
+
+/-! ### unassigned code words, EOL -/
+
+/-- Every `_accept` callback answers `None` (a code word that no table entry owns) with `InvalidData`. -/
+theorem accept_none (st : St) : accept st none = .error .invalidData := by
+  cases ha : st.acc <;> simp only [accept, ha, parseMode, parseHoriz1, parseHoriz2, parseUncompressed] <;> rfl
+
+/-- Bits that lead from the current node to an unassigned slot of the table end in `_accept(None)`. -/
+theorem feed_follow_empty : ∀ (code : List Bool) (st : St) (pos : Nat) (rest : List Bool),
+    code ≠ [] → Trie.follow st.node code = some .empty →
+    feedFlat st pos 0 (code ++ rest) = .error .invalidData := by
+  intro code
+  induction code with
+  | nil => intro st pos rest h; exact absurd rfl h
+  | cons b bs ih =>
+    intro st pos rest _ h
+    obtain ⟨l, r, hn, hf⟩ := follow_cons_node h
+    simp only [List.cons_append, feedFlat, stepBit, hn]
+    cases hc : (if b then r else l) with
+    | leaf s =>
+      rw [hc] at hf
+      cases bs <;> simp [Trie.follow] at hf
+    | empty =>
+      rw [hc] at hf
+      cases bs with
+      | cons b' bs' => simp [Trie.follow] at hf
+      | nil => simp only [accept_none]
+    | node a' c' =>
+      simp only []
+      rw [hc] at hf
+      have hne : bs ≠ [] := by
+        intro hb; subst hb; simp [Trie.follow] at hf
+      exact ih { st with node := .node a' c' } (pos + 1) rest hne hf
+
+/-- The T.4 end-of-line code (not part of T.6 data; EOFB is two of them). -/
+def codeEOL : List Bool := List.replicate 11 false ++ [true]
+
+theorem codeEOFB_eq : T6.codeEOFB = codeEOL ++ codeEOL := by decide
+
+/-- The twelve ways in which the bits after one EOL can fail to be a second EOL. -/
+def eolDeviation (k : Nat) : List Bool := if k < 11 then List.replicate k false ++ [true] else List.replicate 12 false
+
+theorem eol_deviation_ok : ∀ k : Fin 12,
+    Trie.follow modeTrie (codeEOL ++ eolDeviation k.val) = some .empty := by decide +kernel
+
+end PdfVerif.Ccitt
